@@ -52,10 +52,21 @@ class Chooser:
             n = len(weights)
         if n <= 0:
             raise ReplayError(f"empty choice at {label!r}")
-        if self.forced and label.startswith(self.forced[0][0]):
+        val = None
+        if isinstance(self.forced, dict):
+            for pre, lst in self.forced.items():
+                if lst and label.startswith(pre):
+                    val = lst.pop(0)
+                    if callable(val):
+                        val = val(n, weights)
+                    break
+        elif self.forced and label.startswith(self.forced[0][0]):
             _, val = self.forced.pop(0)
+        if val is not None:
             if not 0 <= val < n:
                 raise ReplayError(f"forced answer {val} out of range at {label!r}")
+            if weights is not None and not weights[val] > 0:
+                raise ReplayError(f"forced answer {val} has zero weight at {label!r}")
             # recorded as a one-way point so that prefixes stay aligned
             i = len(self.trace)
             if i < len(self.prefix) and self.prefix[i] != 0:
